@@ -117,7 +117,7 @@ Section Walk.
                         r_safe := match u with [] => true | _ => false end; r_last := is_last |} in
             s_cons r
               (if is_skipped E skipped h then s_ok [] else
-               (* a DictNode's own key_types child is not shown; it must be a safe ListNode *)
+               (* a DictNode's own key_types child is not shown when it is a safe ListNode (D32 repaired: otherwise it is shown like any other child) *)
                let descend (subs' : list node) :=
                  if twice_on_path h path then s_err ERecursion else
                  s_concat (fun p => walk fuel' (push_path h path) (slot_key (node_slot (fst p))) (S level) (snd p) (fst p))
@@ -134,10 +134,10 @@ Section Walk.
                        | Node hk _ =>
                            match h_kind hk with
                            | KList => s_lift (unsafe E T root kt')
-                                        (fun uk => match uk with [] => descend rest | _ => s_err EValue end)
-                           | _ => s_err EValue
+                                        (fun uk => match uk with [] => descend rest | _ => descend subs end)
+                           | _ => descend subs
                            end
-                       | _ => s_err EValue
+                       | _ => descend subs
                        end
                    | [] => s_err EKey
                    end
